@@ -80,7 +80,7 @@ fn check(e: &Expression, case: &str, rep: &mut Report, nontrivial_key: Option<St
     let want_framed = needs_frames(e);
     let mut recs = vec![FileRecord::base(0), FileRecord::base(1)];
     recs[1].relpath = "z".into();
-    match validate(e, &opts_default(), &mut |_| recs.clone()) {
+    match validate(e, &crate::sut::opts_for(crate::rng::hash_str(case)), &mut |_| recs.clone()) {
         Tv::Skip(_) => rep.skipped_unspecified += 1,
         Tv::Refused(m) => rep.violation("C10:refused", &format!("supported tree refused: {}", m), case, J::Null),
         Tv::Bad { kind, what, mut detail } => {
